@@ -248,7 +248,27 @@ def check_generated(ctx, case):
                  % o['exc'])
         return
     c = dict(case, data=g, units=units, built=how)
-    if roundtrip(ctx, c, o['ok'], units):
+    first_ok = roundtrip(ctx, c, o['ok'], units)
+    if first_ok and rng.random() < 0.5:
+        # the same OBJECT changed through its own API and formatted again
+        # with the same unit choice: the text must follow the object
+        obj = o['ok']
+        ops = []
+        if obj.ND_S_ref is not None:
+            ops.append(('del_ND_S_ref', lambda: obj.del_ND_S_ref()))
+        if obj.ND_H_ref is not None:
+            ops.append(('del_ND_H_ref', lambda: obj.del_ND_H_ref()))
+        r0 = obj.get_range()
+        if r0 is not None:
+            ops.append(('set_range', lambda: obj.set_range(
+                (r0[0] - 7.0 if r0[0] > 20 else r0[0], r0[1] + 11.0))))
+        if ops:
+            name, fn = rng.choice(ops)
+            mo = observe(fn)
+            if 'ok' in mo:
+                ctx.count('objects_changed_through_the_api_and_reformatted')
+                roundtrip(ctx, dict(c, changed_by=name), obj, units)
+    if first_ok:
         ctx.nontrivial(['gen', case['key']])
         ctx.klass('units: %s | T: %s | built: %s' % (
             '+'.join(sorted(k.split()[-1] for k in units
